@@ -22,6 +22,66 @@ import (
 type gateFn struct {
 	mu   sync.Mutex
 	ctrl map[int]*reqCtl
+	bar  *barrier // parallel load: requests without a controller rendezvous here
+}
+
+// barrier: rendezvous of the requests in flight of one load round. A request arriving at a
+// gate waits until every other live request is parked at a gate too (or has finished), then all
+// go on together: everybody has created its values before anybody uses them, with real
+// goroutines racing between two gates. live is set before the round starts; a finished
+// request leaves.
+type barrier struct {
+	mu      sync.Mutex
+	cond    *sync.Cond
+	live    int
+	waiting int
+	gen     int
+}
+
+func newBarrier() *barrier {
+	b := &barrier{}
+	b.cond = sync.NewCond(&b.mu)
+	return b
+}
+
+func (b *barrier) begin(n int) {
+	b.mu.Lock()
+	b.live, b.waiting = n, 0
+	b.mu.Unlock()
+}
+
+func (b *barrier) release() {
+	b.gen++
+	b.waiting = 0
+	b.cond.Broadcast()
+}
+
+func (b *barrier) wait() {
+	b.mu.Lock()
+	defer b.mu.Unlock()
+	if b.live <= 1 {
+		return
+	}
+	b.waiting++
+	if b.waiting >= b.live {
+		b.release()
+		return
+	}
+	g := b.gen
+	for b.gen == g {
+		b.cond.Wait()
+	}
+}
+
+func (b *barrier) leave() {
+	b.mu.Lock()
+	defer b.mu.Unlock()
+	if b.live > 0 {
+		b.live--
+	}
+	if b.waiting > 0 && b.waiting >= b.live {
+		b.release()
+	}
 }
 
 type reqCtl struct {
@@ -45,6 +105,9 @@ func (g *gateFn) Call(ctx data.Context) (data.GetValue, data.Control) {
 	c := g.ctrl[id]
 	g.mu.Unlock()
 	if c == nil {
+		if g.bar != nil {
+			g.bar.wait()
+		}
 		return nil, nil
 	}
 	c.parked <- true
